@@ -3,7 +3,7 @@ CONSTANT U2Types <- U2TypesQ
 CONSTANT WideSets <- WideSetsC
 CONSTANT NarrowSets <- NarrowSetsQ
 CONSTANT Shapes <- AllShapes
-CONSTANT Blip = FALSE
+CONSTANT Blip = TRUE
 INIT Init
 NEXT MCNext
 VIEW view
